@@ -193,7 +193,9 @@ fn corpus_program(rng: &mut Rng, allow_softfork: bool) -> (T, T) {
         4 => gc_pair_program(rng),
         5 => progs::random_path_program(rng),
         6 => secp4_program(rng),
-        7 if allow_softfork => misdeclared_guard(rng),
+        7 if allow_softfork => {
+            if rng.chance(1, 2) { misdeclared_guard(rng) } else { exact_guard(rng) }
+        }
         8 if allow_softfork => {
             let lines = progs::generate_run_softfork_args(rng, 0, "quick");
             from_line(&lines[rng.below(lines.len() as u64) as usize], 6)
@@ -338,7 +340,7 @@ pub fn oracle(name: &str, rng: &mut Rng, n: usize, tier: &str) -> OracleReport {
             (trees::from_hex(w[6]).unwrap(), T::nil())
         } else if (name == "repr" && i % 4 == 3) || (name == "total" && i % 5 == 4) {
             gc_pair_program(rng)
-        } else if name == "hide" && i % 5 == 3 {
+        } else if (name == "hide" && i % 5 == 3) || (name == "repr" && i % 8 == 4) {
             exact_guard(rng)
         } else if name == "repr" && i % 4 == 2 {
             progs::random_path_program(rng)
@@ -360,6 +362,7 @@ pub fn oracle(name: &str, rng: &mut Rng, n: usize, tier: &str) -> OracleReport {
         }
         let flags = match name {
             "repr" if i % 4 == 3 => random_flags(rng) | ENABLE_GC,
+            "repr" if i % 8 == 4 => *rng.pick(&[0x1u32, 0x217, 0x3, 0x11]), // exact_guard(): cost for the old model
             "total" if i % 5 == 4 => random_flags(rng) | ENABLE_GC,
             "hide" if i % 5 == 3 => 0, // exact_guard() declares the cost for default flags
             "hide" => (random_flags(rng) & !(NO_UNKNOWN_OPS | NEW_COST_MODEL)) | if i % 5 == 2 && i % 2 == 0 { 0x100 } else { 0 },
@@ -474,8 +477,9 @@ pub fn oracle(name: &str, rng: &mut Rng, n: usize, tier: &str) -> OracleReport {
                         r |= b;
                     }
                 }
-                if rng.chance(1, 4) {
-                    r = 0x2 | 0x4 | 0x200 | 0x1 | 0x10;
+                if rng.chance(1, 3) {
+                    // the crate's own constant (whatever it contains today), not a copy of its bits
+                    r = clvmr::chia_dialect::MEMPOOL_MODE.bits();
                 }
                 // directed: softfork guards whose cost / extension arguments are non-canonical integers
                 let mut prog2 = prog.clone();
@@ -486,6 +490,11 @@ pub fn oracle(name: &str, rng: &mut Rng, n: usize, tier: &str) -> OracleReport {
                     if rng.chance(1, 2) {
                         r |= CANONICAL_INTS;
                     }
+                }
+                if i % 6 == 5 {
+                    // look-alike BLS points under the crate's own MEMPOOL_MODE constant
+                    prog2 = bls_point_program(rng).0;
+                    r = clvmr::chia_dialect::MEMPOOL_MODE.bits();
                 }
                 let prog = &prog2;
                 let with = run_full("chia", flags | r, 0, prog, &env, "");
